@@ -115,28 +115,82 @@ func c06rPrelude() []c06rTable {
 		{label: "pre-v4in6", entries: E("a.test", "::ffff:1.2.3.4", "a.test", "1.1.1.1")},
 		{label: "pre-depth3", entries: E("*.c.b.a.test", "1.1.1.1", "*.b.a.test", "c.b.a.test", "c.b.a.test", "::1")},
 		{label: "pre-wild-literal-query", entries: E("*.a.test", "x.test", "x.test", "1.1.1.1")},
+		// exceptions typed with capital letters
+		{label: "pre-exc-mixed-a", entries: E("A.Test", "A", "*.test", "1.1.1.1", "*.test", "::1"), extraQ: []string{"A.TEST", "a.Test"}},
+		{label: "pre-exc-mixed-aaaa", entries: E("B.A.Test", "AAAA", "*.a.test", "::1", "*.a.test", "1.1.1.1"), extraQ: []string{"b.A.test"}},
+		{label: "pre-exc-mixed-a-beside-value", entries: E("X.TEST", "1.1.1.1", "x.Test", "AAAA", "*.test", "::1")},
+		{label: "pre-exc-mixed-wild", entries: E("*.A.Test", "A", "*.test", "1.1.1.1", "*.B.a.TEST", "AAAA", "*.test", "::1")},
+		{label: "pre-exc-mixed-self-dom", entries: E("B.A.Test", "b.a.test", "*.a.test", "1.1.1.1"), extraQ: []string{"B.a.test"}},
+		{label: "pre-exc-mixed-self-ans", entries: E("b.a.test", "B.a.test", "*.a.test", "1.1.1.1")},
+		{label: "pre-exc-mixed-self-both", entries: E("B.A.Test", "B.A.Test", "*.a.test", "1.1.1.1"), extraQ: []string{"B.A.Test"}},
+		{label: "pre-exc-mixed-pattern-self", entries: E("*.A.Test", "*.a.test", "b.a.test", "1.1.1.1", "*.X.test", "*.X.test", "y.x.test", "2.2.2.2")},
+		{label: "pre-mixed-chain", entries: E("a.test", "X.Test", "x.test", "Y.x.test", "Y.X.TEST", "1.1.1.1")},
+		// canonical names the scripted upstream answers negatively
+		{label: "pre-cname-upstream-negative", entries: E("a.test", "s.fail", "b.a.test", "n.nodata", "x.test", "other.example", "*.x.test", "u.down", "test", "m.multi"),
+			extraQ: []string{"s.fail", "n.nodata", "u.down", "m.multi"}},
+		{label: "pre-chain-upstream-negative", entries: E("a.test", "x.test", "x.test", "s.fail", "*.a.test", "y.x.test", "y.x.test", "N.NoData")},
 	}
 }
 
-func c06rRandAnswer(r *vfRand, dom string) string {
+// c06rIsCnameAns: is the answer text a canonical name (not an address, not "A"/"AAAA")?
+func c06rIsCnameAns(a string) bool {
+	if a == "A" || a == "AAAA" {
+		return false
+	}
+	_, err := netip.ParseAddr(a)
+	return err != nil
+}
+
+func c06rHasUpper(s string) bool { return s != strings.ToLower(s) }
+
+// c06rMixCase returns s with a random subset of its letters in upper case (at
+// least one when s has a letter).
+func c06rMixCase(r *vfRand, s string) string {
+	b := []byte(s)
+	var letters []int
+	for i, c := range b {
+		if c >= 'a' && c <= 'z' {
+			letters = append(letters, i)
+			if r.Chance(1, 2) {
+				b[i] = c - 32
+			}
+		}
+	}
+	if len(letters) > 0 && string(b) == s {
+		i := letters[r.Intn(len(letters))]
+		b[i] -= 32
+	}
+	return string(b)
+}
+
+// c06rOutside: names outside the table universe; the scripted upstream
+// answers them negatively by suffix.
+var c06rOutside = []string{"other.example", "s.fail", "n.nodata", "u.down", "m.multi",
+	"q.a.test", "d.c.b.a.test", "z.test", "Other.Example", "S.Fail"}
+
+// c06rRandAnswer: typed is the domain as configured.
+func c06rRandAnswer(r *vfRand, typed string) string {
 	switch k := r.Intn(100); {
-	case k < 30:
+	case k < 28:
 		return vfPick(r, c06rV4)
-	case k < 45:
+	case k < 42:
 		return vfPick(r, c06rV6)
-	case k < 52:
+	case k < 50:
 		return "A"
-	case k < 60:
+	case k < 58:
 		return "AAAA"
-	case k < 66:
-		return dom // self / pattern onto itself
-	case k < 69:
+	case k < 62:
+		return strings.ToLower(typed) // self / pattern onto itself
+	case k < 65:
+		return typed // the same, exactly as typed
+	case k < 67:
+		return c06rMixCase(r, strings.ToLower(typed))
+	case k < 70:
 		return vfPick(r, c06rWilds)
-	case k < 72:
-		n := vfPick(r, c06rNames)
-		return strings.ToUpper(n[:1]) + n[1:]
-	case k < 76:
-		return vfPick(r, []string{"other.example", "q.a.test", "d.c.b.a.test", "z.test"})
+	case k < 74:
+		return c06rMixCase(r, vfPick(r, c06rNames))
+	case k < 82:
+		return vfPick(r, c06rOutside)
 	default:
 		return vfPick(r, c06rNames)
 	}
@@ -149,8 +203,11 @@ func c06rRandDom(r *vfRand) string {
 	} else {
 		d = vfPick(r, c06rNames)
 	}
-	if r.Chance(1, 20) {
+	switch k := r.Intn(20); {
+	case k == 0:
 		d = strings.ToUpper(d)
+	case k < 4:
+		d = c06rMixCase(r, d)
 	}
 	return d
 }
@@ -162,7 +219,7 @@ func c06rRandTable(r *vfRand) (t c06rTable) {
 		t.label = "rand-uniform"
 		for i := 0; i < n; i++ {
 			d := c06rRandDom(r)
-			t.entries = append(t.entries, c06rEntry{d, c06rRandAnswer(r, strings.ToLower(d))})
+			t.entries = append(t.entries, c06rEntry{d, c06rRandAnswer(r, d)})
 		}
 	case 1, 2: // a CNAME chain, maybe closed into a cycle, maybe entered from outside
 		t.label = "rand-chain"
@@ -189,18 +246,20 @@ func c06rRandTable(r *vfRand) (t c06rTable) {
 				t.entries = append(t.entries, c06rEntry{last, nodes[r.Intn(k)]})
 			case 2: // addresses at the end
 				t.entries = append(t.entries, c06rEntry{last, vfPick(r, c06rV4)}, c06rEntry{last, vfPick(r, c06rV6)})
+			default: // the chain leaves the table
+				t.entries = append(t.entries, c06rEntry{last, vfPick(r, c06rOutside)})
 			}
 		}
 		for len(t.entries) < n {
 			d := c06rRandDom(r)
-			t.entries = append(t.entries, c06rEntry{d, c06rRandAnswer(r, strings.ToLower(d))})
+			t.entries = append(t.entries, c06rEntry{d, c06rRandAnswer(r, d)})
 		}
 	default: // few names, many entries: conflicts and duplicates
 		t.label = "rand-dense"
 		doms := []string{vfPick(r, c06rNames), vfPick(r, c06rWilds), c06rRandDom(r)}
 		for i := 0; i < n; i++ {
 			d := vfPick(r, doms)
-			t.entries = append(t.entries, c06rEntry{d, c06rRandAnswer(r, strings.ToLower(d))})
+			t.entries = append(t.entries, c06rEntry{d, c06rRandAnswer(r, d)})
 		}
 	}
 	if len(t.entries) > 0 && r.Chance(1, 3) {
@@ -215,17 +274,28 @@ func c06rRandTable(r *vfRand) (t c06rTable) {
 	if r.Chance(1, 4) {
 		t.extraQ = append(t.extraQ, strings.ToUpper(vfPick(r, c06rNames)))
 	}
+	if r.Chance(1, 6) {
+		t.extraQ = append(t.extraQ, c06rMixCase(r, vfPick(r, c06rNames)))
+	}
+	if r.Chance(1, 6) {
+		t.extraQ = append(t.extraQ, vfPick(r, []string{"s.fail", "n.nodata", "u.down", "m.multi"}))
+	}
 	if r.Chance(1, 10) {
 		t.extraQ = append(t.extraQ, "")
 	}
 	return t
 }
 
-
-// c06rUpstream answers by a fixed scheme (mirrored by C06.ups in Coq):
-// NXDOMAIN under .example, else one A 9.9.9.9 / one AAAA 2001:db8::9 for the
-// name asked, nothing for other types.
-type c06rUpstream struct{ calls []dns.Question }
+// c06rUpstream answers by a fixed scheme (mirrored by C06.ups in Coq), by the
+// suffix of the lower-cased name asked: ".down" the exchange fails (an error,
+// no message); ".example" NXDOMAIN, ".fail" SERVFAIL, ".nodata" NOERROR, all
+// three with an empty answer section; ".multi" two address records; else one
+// A 9.9.9.9 / one AAAA 2001:db8::9 for the name asked, nothing for other
+// types.
+type c06rUpstream struct {
+	calls  []dns.Question
+	failed int
+}
 
 var _ upstream.Upstream = (*c06rUpstream)(nil)
 
@@ -234,13 +304,27 @@ func (u *c06rUpstream) Exchange(req *dns.Msg) (resp *dns.Msg, err error) {
 	u.calls = append(u.calls, q)
 	resp = new(dns.Msg).SetReply(req)
 	base := strings.TrimSuffix(strings.ToLower(q.Name), ".")
+	multi := strings.HasSuffix(base, ".multi")
 	switch {
+	case strings.HasSuffix(base, ".down"):
+		u.failed++
+		return nil, fmt.Errorf("c06r: scripted exchange failure for %s", q.Name)
 	case strings.HasSuffix(base, ".example"):
 		resp.Rcode = dns.RcodeNameError
+	case strings.HasSuffix(base, ".fail"):
+		resp.Rcode = dns.RcodeServerFailure
+	case strings.HasSuffix(base, ".nodata"):
+		// NOERROR, no records
 	case q.Qtype == dns.TypeA:
 		resp.Answer = []dns.RR{&dns.A{Hdr: dns.RR_Header{Name: q.Name, Rrtype: dns.TypeA, Class: dns.ClassINET, Ttl: 60}, A: net.IP{9, 9, 9, 9}}}
+		if multi {
+			resp.Answer = append(resp.Answer, &dns.A{Hdr: dns.RR_Header{Name: q.Name, Rrtype: dns.TypeA, Class: dns.ClassINET, Ttl: 60}, A: net.IP{9, 9, 9, 10}})
+		}
 	case q.Qtype == dns.TypeAAAA:
 		resp.Answer = []dns.RR{&dns.AAAA{Hdr: dns.RR_Header{Name: q.Name, Rrtype: dns.TypeAAAA, Class: dns.ClassINET, Ttl: 60}, AAAA: net.ParseIP("2001:db8::9")}}
+		if multi {
+			resp.Answer = append(resp.Answer, &dns.AAAA{Hdr: dns.RR_Header{Name: q.Name, Rrtype: dns.TypeAAAA, Class: dns.ClassINET, Ttl: 60}, AAAA: net.ParseIP("2001:db8::a")})
+		}
 	}
 	return resp, nil
 }
@@ -299,10 +383,11 @@ func c06rNewServer(t *testing.T, tbl []c06rEntry, enabled bool) (*Server, *c06rU
 }
 
 type c06rObs struct {
-	timeout bool
-	err     string
-	calls   []dns.Question
-	res     *dns.Msg
+	timeout   bool
+	err       string // "panic: ..." or "error: ..." from handleDNSRequest
+	upsFailed bool   // the scripted upstream failed an exchange during this request
+	calls     []dns.Question
+	res       *dns.Msg
 }
 
 func c06rTrim(n string) string { return strings.TrimSuffix(n, ".") }
@@ -325,8 +410,12 @@ func (o c06rObs) coq() string {
 	if o.timeout {
 		return "RTimeout"
 	}
-	if o.err != "" || o.res == nil || len(o.res.Question) != 1 {
+	if strings.HasPrefix(o.err, "panic") || o.res == nil || len(o.res.Question) != 1 {
 		return "RErr"
+	}
+	ctor := "RObs"
+	if o.err != "" {
+		ctor = "RFail"
 	}
 	calls := make([]string, len(o.calls))
 	for i, c := range o.calls {
@@ -336,11 +425,11 @@ func (o c06rObs) coq() string {
 	for i, rr := range o.res.Answer {
 		ans[i] = c06rRR(rr)
 	}
-	return fmt.Sprintf("(RObs %s %s %d %s)", c06rList(calls), c06rStr(c06rTrim(o.res.Question[0].Name)), o.res.Rcode, c06rList(ans))
+	return fmt.Sprintf("(%s %s %s %d %s)", ctor, c06rList(calls), c06rStr(c06rTrim(o.res.Question[0].Name)), o.res.Rcode, c06rList(ans))
 }
 
 func c06rRun(s *Server, ups *c06rUpstream, deadline time.Duration, name string, qt uint16) (o c06rObs) {
-	ups.calls = nil
+	ups.calls, ups.failed = nil, 0
 	req := createTestMessageWithType(dns.Fqdn(name), qt)
 	pctx := &proxy.DNSContext{Proto: proxy.ProtoUDP, Req: req, Addr: netip.MustParseAddrPort("127.0.0.1:5353")}
 	done := make(chan string, 1)
@@ -363,6 +452,7 @@ func c06rRun(s *Server, ups *c06rUpstream, deadline time.Duration, name string, 
 		o.err = m
 		o.res = pctx.Res
 		o.calls = append(o.calls, ups.calls...)
+		o.upsFailed = ups.failed > 0
 	case <-timer.C:
 		o.timeout = true
 	}
@@ -375,15 +465,28 @@ func c06rMonitor(tbl []c06rEntry, name string, qt uint16, o c06rObs) (ok bool, k
 	if o.timeout {
 		return false, "timeout", "no response before the watchdog deadline"
 	}
-	if o.err != "" || o.res == nil {
+	if o.res == nil || o.err != "" && !o.upsFailed {
+		// an error is legitimate only when the upstream exchange failed
 		return false, "error", "request failed: " + o.err
 	}
 	host := strings.ToLower(name)
+	// Whenever a message is delivered (also the SERVFAIL sent after a failed
+	// exchange) it answers the client's question.
 	if len(o.res.Question) != 1 || !strings.EqualFold(c06rTrim(o.res.Question[0].Name), name) || o.res.Question[0].Qtype != qt {
-		return false, "question", "the delivered message does not carry the original question"
+		return false, "question", fmt.Sprintf("the delivered message does not carry the original question (question section: %v, rcode %d)", o.res.Question, o.res.Rcode)
 	}
 	if len(o.calls) > 1 {
 		return false, "upstream-calls", "more than one upstream call"
+	}
+	if o.upsFailed {
+		if o.err == "" || o.res.Rcode != dns.RcodeServerFailure || len(o.calls) != 1 {
+			return false, "upstream-error", "a failed upstream exchange must end in an error and a SERVFAIL"
+		}
+		asked := c06rTrim(o.calls[0].Name)
+		if !strings.HasSuffix(strings.ToLower(asked), ".down") {
+			return false, "upstream-error", "upstream failure reported for a name the script does not fail"
+		}
+		return true, "", ""
 	}
 	matched, cname, anyExc, hasVal := false, false, false, false
 	answers := map[string]bool{}
@@ -482,6 +585,38 @@ func c06rMonitor(tbl []c06rEntry, name string, qt uint16, o c06rObs) (ok bool, k
 	if !matched && (len(o.calls) != 1 || !strings.EqualFold(c06rTrim(o.calls[0].Name), name)) {
 		return false, "unmatched-not-forwarded", "a name not covered by the table was not forwarded as is"
 	}
+	// Exceptions are effective in whatever letter case they were typed: the
+	// query goes to the upstream as it is and its reply comes back untouched.
+	forwarded := len(o.calls) == 1 && strings.EqualFold(c06rTrim(o.calls[0].Name), name)
+	if forwarded && len(o.res.Answer) > 0 {
+		if _, isC := o.res.Answer[0].(*dns.CNAME); isC {
+			forwarded = false
+		}
+	}
+	excExact, selfExact, allExactCnameSelf := false, false, true
+	for _, e := range tbl {
+		if !strings.EqualFold(e.dom, host) {
+			continue
+		}
+		switch {
+		case e.ans == "A":
+			excExact = excExact || qt == dns.TypeA
+		case e.ans == "AAAA":
+			excExact = excExact || qt == dns.TypeAAAA
+		case c06rIsCnameAns(e.ans):
+			if strings.EqualFold(e.ans, host) {
+				selfExact = true
+			} else {
+				allExactCnameSelf = false
+			}
+		}
+	}
+	if excExact && !cname && !c06rIsWild(host) && !forwarded {
+		return false, "exception-ignored", "an \"A\"/\"AAAA\" entry for exactly this name and type (compared without letter case, no CNAME entry covering the name) did not pass the query on"
+	}
+	if selfExact && allExactCnameSelf && !forwarded {
+		return false, "self-exception-ignored", "the entry \"name -> name\" (compared without letter case) did not pass the query on"
+	}
 	return true, "", ""
 }
 
@@ -516,6 +651,13 @@ func TestVerifC06Resp(t *testing.T) {
 			desc[i] = e.dom + " -> " + e.ans
 		}
 		classes := map[string]bool{"resp-" + tb.label: true}
+		for _, e := range tb.entries {
+			isType := e.ans == "A" || e.ans == "AAAA"
+			isSelf := c06rIsCnameAns(e.ans) && strings.EqualFold(e.ans, e.dom)
+			if (isType || isSelf) && (c06rHasUpper(e.dom) || isSelf && c06rHasUpper(e.ans)) {
+				classes["resp-exception-mixed-case"] = true
+			}
+		}
 		var qCoq []string
 		var descQ []any
 		monOK, monMsg, monKind, monQ := true, "", "", ""
@@ -550,11 +692,30 @@ func TestVerifC06Resp(t *testing.T) {
 				case !strings.EqualFold(c06rTrim(o.calls[0].Name), h):
 					classes["resp-cname-via-upstream"] = true
 					nontrivial = true
-					if o.res.Rcode == dns.RcodeNameError {
+					switch {
+					case o.upsFailed:
+						classes["cname-upstream-error"] = true
+					case o.res.Rcode == dns.RcodeNameError:
 						classes["resp-cname-via-upstream-nxdomain"] = true
+						classes["cname-upstream-nxdomain"] = true
+					case o.res.Rcode == dns.RcodeServerFailure:
+						classes["cname-upstream-servfail"] = true
+					case o.res.Rcode == dns.RcodeSuccess && len(o.res.Answer) <= 1:
+						classes["cname-upstream-nodata"] = true
+					case len(o.res.Answer) > 2:
+						classes["cname-upstream-multi"] = true
+					}
+					if c06rHasUpper(c06rTrim(o.calls[0].Name)) {
+						classes["cname-upstream-mixed-case-name"] = true
 					}
 				default:
 					classes["resp-forwarded"] = true
+					switch {
+					case o.upsFailed:
+						classes["resp-forwarded-error"] = true
+					case o.res.Rcode != dns.RcodeSuccess || len(o.res.Answer) == 0:
+						classes["resp-forwarded-negative"] = true
+					}
 				}
 				ok, kind, msg := true, "", ""
 				if enabled {
